@@ -5,6 +5,9 @@ from .. import harness as H
 from . import sweeps
 
 
+CLOCK_BASES = [5000, (1 << 32) - 30000, (1 << 32) - 3000, (1 << 32) + 5, 1 << 40, (1 << 63) + 12345]
+
+
 def boundary_values():
     vals = set(range(0, 70001))
     for k in range(0, 33):
@@ -49,14 +52,19 @@ def run(ctx):
         binary = H.build(ctx.work, "asan", program="vh_sweep", esp32=False)
         for begun, ni0 in ((1, 45), (1, 10000), (0, 45), (0, 46), (0, 9999), (0, 10000)):
             sweeps.run_sweep(ctx, "c13v", [[begun, ni0]], "C13", stdin_data=data, binary=binary)
-        rep.need("values", rep.counters.get("sweep_c13v_cases", 0), 300000)
+        # the same values with the monotonic clock at other origins (a host that has been up for 49.7 days and more)
+        for base in CLOCK_BASES[1:]:
+            sweeps.run_sweep(ctx, "c13v", [[1, 45, base]], "C13", stdin_data=data, binary=binary)
+        rep.extra["clock_origins_ms"] = CLOCK_BASES
+        rep.need("values", rep.counters.get("sweep_c13v_cases", 0), 300000 * (6 + len(CLOCK_BASES) - 1) // 7)
         rep.sample(dict(begun=1, prior_count=45, r_values=[vals[k] for k in (0, 1, 2, 46, 70001, len(vals) // 2, len(vals) - 2, len(vals) - 1)],
                         oracle="Ni == min(10000, 45*r*r) in 128-bit arithmetic; r reset to 0; next Hello >= max(ceil(8*Ni/3), 6) ms away; "
                                "Ni and the interval never decrease as r (>= 1) ascends"))
     else:
         binary = H.build(ctx.work, "plain", program="vh_sweep", esp32=False)
         step = 2 ** 32 // 16
-        args = [[lo, lo + step, 1, 45] for lo in range(0, 2 ** 32, step)]
+        args = [[lo, lo + step, 1, 45, CLOCK_BASES[k % len(CLOCK_BASES)]] for k, lo in enumerate(range(0, 2 ** 32, step))]
+        rep.extra["clock_origins_ms"] = CLOCK_BASES
         sweeps.run_sweep(ctx, "c13", args, "C13", binary=binary)
         rep.exhaustive = True
         for ni0 in (45, 46, 9999, 10000):
@@ -66,5 +74,6 @@ def run(ctx):
         vals = boundary_values()
         data = "\n".join(map(str, vals)) + "\n"
         b2 = H.build(ctx.work, "asan", program="vh_sweep", esp32=False)
-        sweeps.run_sweep(ctx, "c13v", [[1, 45]], "C13", stdin_data=data, binary=b2)
+        for base in CLOCK_BASES:
+            sweeps.run_sweep(ctx, "c13v", [[1, 45, base]], "C13", stdin_data=data, binary=b2)
         rep.need("values", rep.counters.get("sweep_c13_cases", 0), 2 ** 32)
